@@ -399,3 +399,175 @@ Proof.
     rewrite Forall_forall in Hlive. apply sub_live_weaken. auto.
   - destruct (IH H) as [x [tau [Hx [Ht [Hof Hl]]]]]. exists x, tau. split; [auto|]. split; [lia|]. auto.
 Qed.
+
+(* ------------------------------------------------------------------ subscribe / cancel *)
+Lemma NoDup_snoc : forall {A} (l : list A) a, NoDup l -> ~ In a l -> NoDup (l ++ [a]).
+Proof.
+  intros A l a. induction l as [|x r IH]; cbn; intros Hnd Hn; [constructor; [intros []|constructor]|].
+  inversion Hnd; subst. constructor.
+  - rewrite in_app_iff. cbn. intuition.
+  - apply IH; [assumption|]. intuition.
+Qed.
+
+Lemma NoDup_key_eq : forall sb x y, NoDup (keys sb) -> In x sb -> In y sb -> key x = key y -> x = y.
+Proof.
+  intros sb x y Hnd Hx Hy Hk. pose proof (find_sub_in sb x Hnd Hx) as Fx. pose proof (find_sub_in sb y Hnd Hy) as Fy.
+  unfold key in Hk. inversion Hk as [[H1 H2 H3]]. rewrite H1, H2, H3 in Fx. congruence.
+Qed.
+
+Lemma renew_live : forall nw c p o cf lf k, 0 <= lf ->
+  sub_live nw (mkSub c p o cf lf (if lf =? 0 then None else Some (nw + lf * TICKS, k))).
+Proof. intros. unfold sub_live, TICKS. cbn. destruct (lf =? 0) eqn:E; cbn; lia. Qed.
+Lemma new_live : forall nw c p o cf lf k, 0 <= lf ->
+  sub_live nw (mkSub c p o cf lf (if 0 <? lf then Some (nw + lf * TICKS, k) else None)).
+Proof. intros. unfold sub_live, TICKS. cbn. destruct (0 <? lf) eqn:E; cbn; lia. Qed.
+Lemma live_le : forall nw x, sub_live nw x -> sub_live_le nw x.
+Proof. intros nw x. unfold sub_live, sub_live_le. destruct (s_task x) as [[t k]|]; [lia|auto]. Qed.
+
+Definition life_of (life : option Z) : Z := match life with None => 0 | Some l => l end.
+
+Lemma do_subscribe_facts : forall s c p o cf life pre s' out,
+  inv s -> 0 <= life_of life -> do_subscribe s c p o cf life pre = (s', out) ->
+  inv s' /\ now s' = now s /\
+  (forall x', In x' (subs s') -> In x' (subs s) \/ key x' = (c, p, o)) /\
+  (forall n, In n (o_ntfs out) -> In n pre \/
+     exists x, In x (subs s') /\ key x = (c, p, o) /\ ntf_of (now s) x n /\ sub_live (now s) x).
+Proof.
+  intros s c p o cf life pre s' out [Hnd [Hod Hlive]] Hlf H. unfold do_subscribe in H.
+  fold (life_of life) in H. set (lf := life_of life) in *.
+  assert (Hsame : (s', o_ntfs out) = (s, pre) ->
+     inv s' /\ now s' = now s /\ (forall x', In x' (subs s') -> In x' (subs s) \/ key x' = (c, p, o)) /\
+     (forall n, In n (o_ntfs out) -> In n pre \/
+        exists x, In x (subs s') /\ key x = (c, p, o) /\ ntf_of (now s) x n /\ sub_live (now s) x)).
+  { intro E. inversion E as [[E1 E2]]. rewrite E2. subst s'. repeat split; auto. }
+  destruct (find_obj o (objs s)) as [ob|] eqn:F; [|inversion H; subst; apply Hsame; reflexivity].
+  apply find_obj_some in F as [Fin Foid].
+  assert (Hoid2 : forall g ob', oid ob' = o -> oid (report (g (bind_obj ob))) = o ->
+                   oid ((fun _ : obj => report (g (bind_obj ob))) ob') = o) by auto.
+  destruct (okind ob) eqn:K; try (inversion H; subst; apply Hsame; reflexivity).
+  all: destruct (find_sub c p o (subs s)) as [y|] eqn:FS; inversion H; subst s' out; clear H; unfold inv; cbn [now subs objs o_ntfs ack_out].
+  all: try (apply find_sub_some in FS as [Hy Hky]).
+  all: try (pose proof (find_sub_none _ _ _ _ FS) as Hnone).
+  (* renewals *)
+  1,3,5: split; [split; [rewrite keys_replace by reflexivity; exact Hnd|split;
+                 [rewrite oids_upd_obj; [exact Hod|intros ob' _; cbn; rewrite oid_report, oid_bind; exact Foid]|
+                  apply Forall_forall; intros x Hx; apply in_map_iff in Hx as [x0 [<- Hx0]];
+                  destruct (key_eqb c p o x0); [apply renew_live; exact Hlf|rewrite Forall_forall in Hlive; auto]]]|];
+         split; [reflexivity|]; split;
+         [intros x' Hx; apply in_map_iff in Hx as [x0 [<- Hx0]]; destruct (key_eqb c p o x0); [right; reflexivity|left; exact Hx0]|];
+         intros n Hn; apply in_app_or in Hn as [Hn|[<-|[]]]; [left; exact Hn|right];
+         eexists; split; [apply in_map_iff; exists y; split; [|exact Hy]; apply key_eqb_iff in Hky; rewrite Hky; reflexivity|];
+         split; [reflexivity|]; split; [apply mk_ntf_of|apply renew_live; exact Hlf].
+  (* new subscriptions *)
+  all: split; [split; [unfold keys; rewrite map_app; apply NoDup_snoc; [exact Hnd|exact Hnone]|split;
+               [rewrite oids_upd_obj; [exact Hod|intros ob' _; cbn;
+                  repeat match goal with |- context [if ?b then _ else _] => destruct b end;
+                  rewrite oid_report; cbn; try rewrite oid_bind; exact Foid]|
+                apply Forall_app; split; [exact Hlive|constructor; [apply new_live; exact Hlf|constructor]]]]|];
+       split; [reflexivity|]; split;
+       [intros x' Hx; apply in_app_or in Hx as [Hx|[<-|[]]]; [left; exact Hx|right; reflexivity]|];
+       intros n Hn; apply in_app_or in Hn as [Hn|[<-|[]]]; [left; exact Hn|right];
+       eexists; split; [apply in_or_app; right; left; reflexivity|];
+       split; [reflexivity|]; split; [apply mk_ntf_of|apply new_live; exact Hlf].
+Qed.
+
+Lemma do_cancel_facts : forall s c p o pre s' out,
+  inv s -> do_cancel s c p o pre = (s', out) ->
+  inv s' /\ now s' = now s /\ (forall x', In x' (subs s') -> In x' (subs s)) /\ o_ntfs out = pre /\
+  (o_ack out = 1 -> ~ In (c, p, o) (keys (subs s'))) /\
+  (forall x, In x (subs s) -> key x <> (c, p, o) -> In x (subs s')).
+Proof.
+  intros s c p o pre s' out [Hnd [Hod Hlive]] H. unfold do_cancel in H.
+  assert (Hsame : (s', o_ntfs out, o_ack out) = (s, pre, 2) ->
+     inv s' /\ now s' = now s /\ (forall x', In x' (subs s') -> In x' (subs s)) /\ o_ntfs out = pre /\
+     (o_ack out = 1 -> ~ In (c, p, o) (keys (subs s'))) /\
+     (forall x, In x (subs s) -> key x <> (c, p, o) -> In x (subs s'))).
+  { intro E. inversion E as [[E1 E2 E3]]. subst s'. repeat split; auto. intro; lia. }
+  destruct (find_obj o (objs s)) as [ob|] eqn:F; [|inversion H; subst; apply Hsame; reflexivity].
+  destruct (okind ob) eqn:K; try (inversion H; subst; apply Hsame; reflexivity).
+  all: assert (Hbind : oids (upd_obj o bind_obj (objs s)) = oids (objs s))
+         by (apply oids_upd_obj; intros ob' E; rewrite oid_bind; exact E).
+  all: destruct (find_sub c p o (subs s)) as [y|] eqn:FS; inversion H; subst s' out; clear H; unfold inv;
+       cbn [now subs objs o_ntfs o_ack ack_out].
+  1,3,5: rewrite drop_sub_oids; cbn [objs]; rewrite Hbind; split;
+         [split; [apply NoDup_map_filter; exact Hnd|split; [exact Hod|
+            apply Forall_forall; intros x Hx; apply remove_sub_in in Hx as [Hx _]; rewrite Forall_forall in Hlive; auto]]|];
+         split; [reflexivity|]; split; [intros x' Hx; apply remove_sub_in in Hx; tauto|]; split; [reflexivity|];
+         split; [intros _ Hin; apply keys_remove in Hin; tauto|intros x Hx Hk; apply remove_sub_in; auto].
+  all: rewrite Hbind; split; [auto|]; split; [reflexivity|]; split; [auto|]; split; [reflexivity|];
+       split; [intros _; exact (find_sub_none _ _ _ _ FS)|auto].
+Qed.
+
+(* ------------------------------------------------------------------ one event *)
+Definition is_subscribe_of (k : Z * Z * Z) (e : ev) : Prop :=
+  match e with Subscribe c p o _ _ => k = (c, p, o) | _ => False end.
+
+Lemma drain_facts : forall s s1 ns, inv s -> drain s = (s1, ns) ->
+  inv s1 /\ now s1 = now s /\ subs s1 = subs s /\
+  (forall n, In n ns -> exists x, In x (subs s) /\ ntf_of (now s) x n /\ sub_live (now s) x).
+Proof.
+  intros s s1 ns [Hnd [Hod Hlive]] H. rewrite drain_spec in H. inversion H; subst s1 ns; clear H.
+  unfold inv. cbn [now subs objs]. rewrite exec_all_oids. repeat split; auto.
+  intros n Hn. apply exec_all_ntfs in Hn as [o [x [_ [_ [Hx [_ ->]]]]]]. exists x. split; [exact Hx|].
+  split; [apply mk_ntf_of|]. rewrite Forall_forall in Hlive. auto.
+Qed.
+
+Lemma step_facts : forall s e s' out, inv s -> wf_ev e -> step s e = (s', out) ->
+  inv s' /\ now s <= now s' /\
+  (forall x', In x' (subs s') -> In x' (subs s) \/ is_subscribe_of (key x') e) /\
+  (forall n, In n (o_ntfs out) -> exists x tau,
+     (In x (subs s) \/ (In x (subs s') /\ is_subscribe_of (key x) e)) /\
+     now s <= tau <= now s' /\ ntf_of tau x n /\ sub_live_le tau x).
+Proof.
+  intros s e s' out Hinv Hwf H. destruct e as [i p v| |c p o cf life|c p o|t|c]; cbn [step] in H.
+  - (* Write *)
+    assert (Hsame : forall os, oids os = oids (objs s) -> s' = mkSt (now s) (ctr s) os (subs s) -> o_ntfs out = [] ->
+        inv s' /\ now s <= now s' /\ (forall x', In x' (subs s') -> In x' (subs s) \/ False) /\
+        (forall n, In n (o_ntfs out) -> exists x tau, (In x (subs s) \/ (In x (subs s') /\ False)) /\
+            now s <= tau <= now s' /\ ntf_of tau x n /\ sub_live_le tau x)).
+    { intros os Ho -> Hn. rewrite Hn. destruct Hinv as [A [B C]]. unfold inv. cbn [now subs objs]. rewrite Ho.
+      repeat split; auto; try lia. intros n []. }
+    destruct (nth_error (objs s) i) as [ob|].
+    + destruct (has_prop (okind ob) p); inversion H; subst s' out.
+      * eapply Hsame; [|reflexivity|reflexivity]. apply oids_upd_nth. intro. apply oid_write_obj.
+      * eapply (Hsame (objs s)); [reflexivity|destruct s; reflexivity|reflexivity].
+    + inversion H; subst s' out. eapply (Hsame (objs s)); [reflexivity|destruct s; reflexivity|reflexivity].
+  - (* Drain *)
+    destruct (drain s) as [s1 ns] eqn:D. inversion H; subst s' out; clear H.
+    destruct (drain_facts _ _ _ Hinv D) as [A [B [C Hn]]]. cbn [o_ntfs]. split; [exact A|]. split; [lia|].
+    split; [rewrite C; auto|]. intros n Hin. destruct (Hn n Hin) as [x [Hx [Hof Hl]]].
+    exists x, (now s). split; [auto|]. split; [lia|]. split; [exact Hof|apply live_le; exact Hl].
+  - (* Subscribe *)
+    destruct (drain s) as [s1 ns] eqn:D. destruct (drain_facts _ _ _ Hinv D) as [A [B [C Hn]]].
+    assert (Hlf : 0 <= life_of life) by (destruct life; cbn in *; lia).
+    destruct (do_subscribe_facts _ _ _ _ _ _ _ _ _ A Hlf H) as [A' [B' [C' Hn']]].
+    split; [exact A'|]. split; [lia|]. split.
+    + intros x' Hx. destruct (C' x' Hx) as [Hin|Hk]; [left; rewrite <- C; exact Hin|right; exact Hk].
+    + intros n Hin. destruct (Hn' n Hin) as [Hpre|[x [Hx [Hk [Hof Hl]]]]].
+      * destruct (Hn n Hpre) as [x [Hx [Hof Hl]]]. exists x, (now s). split; [auto|]. split; [lia|].
+        split; [exact Hof|apply live_le; exact Hl].
+      * exists x, (now s). split; [right; split; [exact Hx|exact Hk]|]. split; [lia|]. rewrite B in Hof, Hl.
+        split; [exact Hof|apply live_le; exact Hl].
+  - (* Cancel *)
+    destruct (drain s) as [s1 ns] eqn:D. destruct (drain_facts _ _ _ Hinv D) as [A [B [C Hn]]].
+    destruct (do_cancel_facts _ _ _ _ _ _ _ A H) as [A' [B' [C' [Hn' _]]]].
+    split; [exact A'|]. split; [lia|]. split; [intros x' Hx; left; rewrite <- C; auto|].
+    intros n Hin. rewrite Hn' in Hin. destruct (Hn n Hin) as [x [Hx [Hof Hl]]]. exists x, (now s).
+    split; [auto|]. split; [lia|]. split; [exact Hof|apply live_le; exact Hl].
+  - (* Advance *)
+    destruct (drain s) as [s1 n1] eqn:D. destruct (drain_facts _ _ _ Hinv D) as [[A1 [A2 A3]] [B [C Hn]]].
+    pose proof (ticks_inv (Z.to_nat t) s1 A1 A3) as T. pose proof (ticks_ntfs (Z.to_nat t) s1) as TN.
+    destruct (ticks (Z.to_nat t) s1) as [s2 n2]. cbn in T, TN. inversion H; subst s' out; clear H.
+    destruct T as [T1 [T2 [T3 [T4 T5]]]]. cbn in Hwf. cbn [o_ntfs].
+    split; [unfold inv; rewrite T4; auto|]. split; [lia|]. split; [intros x' Hx; left; rewrite <- C; auto|].
+    intros n Hin. apply in_app_or in Hin as [Hin|Hin].
+    + destruct (Hn n Hin) as [x [Hx [Hof Hl]]]. exists x, (now s). split; [auto|]. split; [lia|].
+      split; [exact Hof|apply live_le; exact Hl].
+    + destruct (TN n A1 A3 Hin) as [x [tau [Hx [Ht [Hof Hl]]]]]. exists x, tau. rewrite C in Hx. split; [auto|].
+      split; [lia|]. auto.
+  - (* ReadActive *)
+    destruct (drain s) as [s1 ns] eqn:D. inversion H; subst s' out; clear H.
+    destruct (drain_facts _ _ _ Hinv D) as [A [B [C Hn]]]. cbn [o_ntfs]. split; [exact A|]. split; [lia|].
+    split; [rewrite C; auto|]. intros n Hin. destruct (Hn n Hin) as [x [Hx [Hof Hl]]].
+    exists x, (now s). split; [auto|]. split; [lia|]. split; [exact Hof|apply live_le; exact Hl].
+Qed.
